@@ -31,7 +31,7 @@ REQUIRED_HOOKS = [
     "convert_cart_to_sph", "convert_derivative_from_spherical_to_cartesian", "generate_orders_horton_order", "dipole_moment_of_molecule",
     "BeckeRTransform.transform_1d_grid", "InverseRTransform.transform", "BeckeRTransform.find_parameter",
 ]
-REQUIRED_FAMILIES = ["api-aliasing", "ode-callbacks", "poisson", "transforms"]
+REQUIRED_FAMILIES = ["api-aliasing", "ode-callbacks", "ode-data", "poisson", "transforms"]
 BUDGET = {"quick": 1200, "thorough": 4800}
 MODES = ("fresh", "readonly", "view", "alias")
 RULE = (
@@ -86,9 +86,15 @@ def cases(tier, seed):
                             seen_r.add(r)
                             seen_c.add(c)
                     combos = pick
-                for r, c in combos:
-                    for order in (2,) if tier == "quick" else (1, 2, 3):
+                for j, (r, c) in enumerate(combos):
+                    for order in ((1, 2, 3)[(j + seed) % 3],) if tier == "quick" else (1, 2, 3):  # quick: orders rotate over the picked combos
                         out.append(("ode-callbacks", {"solver": solver, "tf": tf, "rhs": r, "coef": c, "order": order, "readonly": ro}, 1.5))
+    # ODE initial / boundary data in every container type the documentation allows, all orders, every transform setting
+    for solver in ("bvp", "ivp"):
+        for tf in tfs:
+            for order in (1, 2, 3):
+                for ro in (False, True):
+                    out.append(("ode-data", {"solver": solver, "tf": tf, "order": order, "readonly": ro}, 2.0))
     for kind in ("bvp", "ivp", "robust", "robust-split2", "laplacian", "bvp-mol"):
         for mode in MODES:
             for k in range(1 if tier == "quick" else 3):
@@ -242,9 +248,17 @@ def _same(a, b):
 class Run:
     """One run of a scenario: guarded calls + collected results."""
 
-    def __init__(self, ctx, mk, scenario):
+    def __init__(self, ctx, mk, scenario, salt=0):
         self.ctx, self.mk, self.scenario = ctx, mk, scenario
         self.results = []
+        self.salt, self.npick = int(salt), 0
+
+    def pick(self, choices):
+        """Deterministic rotation through the discrete options of an API: run number `salt` (= replica * 4 + argument
+        pattern) takes option (salt + #picks so far) mod len, so the 8 quick runs of a scenario enter every option of
+        every list of <= 8 choices, identically in the baseline and in the pattern run of one case."""
+        self.npick += 1
+        return choices[(self.salt + self.npick) % len(choices)]
 
     def call(self, subject, fn, *a, **k):
         out = None
@@ -328,6 +342,7 @@ def scn_basegrid(R, rng):
     if mo is not None:
         R.keep("mom-orders", mo[1])
     R.call("Grid.save", g.save, _tmp("grid.npz"))
+    R.keep("g.props", [g.size, float(g.points[0, 0]), float(g.weights[0])])
     ind = mk(np.arange(n), "indices")
     lg = R.call("LocalGrid", LocalGrid, pts, w, c, ind)
     if lg is not None:
@@ -369,10 +384,15 @@ _TF_SPECS = [
     ("PowerRTransform", (0.01, 10.0), {"b": 40.0}),
     ("HyperbolicRTransform", (0.4, 0.01), {}),
     ("MultiExpRTransform", (0.1, 1.5), {}),
+    ("MultiExpRTransform", (0.0, 1.2), {"trim_inf": False}),
     ("KnowlesRTransform", (0.1, 1.5, 2), {}),
+    ("KnowlesRTransform", (0.0, 1.2, 3), {"trim_inf": False}),
     ("HandyRTransform", (0.1, 1.5, 2), {}),
+    ("HandyRTransform", (0.0, 1.2, 3), {"trim_inf": False}),
     ("HandyModRTransform", (0.1, 20.0, 2), {}),
+    ("HandyModRTransform", (0.0, 30.0, 3), {"trim_inf": False}),
 ]
+_TF_PROPS = ("rmin", "rmax", "R", "k", "m", "a", "b", "trim_inf", "domain", "codomain")
 
 
 def scn_transforms(R, rng):
@@ -385,11 +405,16 @@ def scn_transforms(R, rng):
         if tf is None:
             continue
         lo, hi = tf.domain
+        R.keep(name + ".props", [float(v) for a in _TF_PROPS if hasattr(tf, a) for v in np.ravel(getattr(tf, a)) if v is not None])
         if np.isfinite(hi):
             xs = np.sort(rng.uniform(lo + 0.02 * (hi - lo), hi - 0.02 * (hi - lo), n))
+            ends = R.pick([False, True])  # the end points themselves (r = rmin and r = infinity / 1e16: the trim_inf branch)
+            if ends:
+                xs[0], xs[-1] = lo, hi
             w0 = np.full(n, (hi - lo) / n)
             dom = (lo, hi)
         else:
+            ends = False
             xs = np.arange(n, dtype=float) if name in ("LinearInfiniteRTransform", "ExpRTransform", "PowerRTransform") else np.sort(rng.uniform(0.05, 30.0, n))
             if name == "PowerRTransform":
                 xs = xs + 1.0
@@ -404,6 +429,10 @@ def scn_transforms(R, rng):
                 r = v
         if r is not None:
             rr = mk(np.array(r, dtype=float), "r")
+            R.keep(f"{name}.inverse-all", R.call(f"{name}.inverse", tf.inverse, rr))
+            # derivatives of the inverse are rejected where dr/dx = 0 or r = inf (the end points): interior values only
+            r = np.array(r, dtype=float)[1:-1] if ends else r
+            rr = mk(np.array(r, dtype=float), "r-interior")
             for meth in ("inverse", "deriv_inverse", "deriv2_inverse", "deriv3_inverse"):
                 R.keep(f"{name}.{meth}", R.call(f"{name}.{meth}", getattr(tf, meth), rr))
         xa, wa = (x, mk.same(x)) if (mk.alias and name not in ("LinearInfiniteRTransform", "ExpRTransform", "PowerRTransform")) else (x, mk(w0, "w"))
@@ -419,7 +448,8 @@ def scn_transforms(R, rng):
             for meth in ("transform", "deriv", "deriv2", "deriv3"):
                 R.keep(f"Inv{name}.{meth}", R.call(f"InverseRTransform.{meth}", getattr(itf, meth), rr))
             R.keep(f"Inv{name}.inverse", R.call("InverseRTransform.inverse", itf.inverse, x))
-    arr = mk(np.sort(rng.uniform(-0.99, 0.99, 21)), "fp-array")
+            R.keep(f"Inv{name}.props", [float(v) for v in np.ravel(itf.domain)] + [float(v) for v in np.ravel(itf.codomain)])
+    arr = mk(np.sort(rng.uniform(-0.99, 0.99, R.pick([21, 20]))), "fp-array")
     R.keep("find_parameter", R.call("BeckeRTransform.find_parameter", rt.BeckeRTransform.find_parameter, arr, 0.1, 1.2))
     # UniformInteger based radial grid as the library builds it by default
     from grid.onedgrid import UniformInteger
@@ -439,7 +469,10 @@ def scn_onedgrid_rules(R, rng):
                  "RectangleRuleSineEndPoints", "TanhSinh", "Simpson", "MidPoint", "ClenshawCurtis", "FejerFirst", "FejerSecond", "TrefethenCC", "TrefethenGC2",
                  "TrefethenStripCC", "TrefethenStripGC2", "ExpSinh", "LogExpSinh", "ExpExp", "SingleTanh", "SingleExp", "SingleArcSinhExp"):
         m = n | 1 if name in ("TanhSinh", "Simpson", "ExpSinh", "LogExpSinh", "ExpExp", "SingleTanh", "SingleExp", "SingleArcSinhExp") else n
-        g = R.call(name, getattr(od, name), m)
+        extra = {"GaussLaguerre": [(), (1.5,), (-0.5,)], "TanhSinh": [(), (0.2,)], "TrefethenCC": [(9,), (1,), (5,)], "TrefethenGC2": [(5,), (9,), (1,)],
+                 "TrefethenStripCC": [(), (1.3,)], "TrefethenStripGC2": [(1.2,), ()], "ExpSinh": [(), (0.5,)], "LogExpSinh": [(), (0.2,)], "ExpExp": [(0.2,), ()],
+                 "SingleTanh": [(), (0.2,)], "SingleExp": [(0.2,), ()], "SingleArcSinhExp": [(), (0.2,)]}.get(name)
+        g = R.call(name, getattr(od, name), m, *(R.pick(extra) if extra else ()))
         if g is not None:
             f = R.mk(np.cos(g.points), "f")
             R.keep(name, R.call(name + ".integrate", g.integrate, f))
@@ -469,15 +502,18 @@ def scn_atomgrid(R, rng):
     from grid.atomgrid import AtomGrid
 
     mk = R.mk
-    method = ["lebedev", "spherical", "maxdet", "ahrens_beylkin"][int(rng.integers(0, 4))]
-    rg = _radial(mk, rng, zero=bool(rng.integers(0, 2)))
+    method = R.pick(["lebedev", "spherical", "maxdet", "ahrens_beylkin"])
+    rg = _radial(mk, rng, zero=R.pick([False, True]))
     n = rg.size
     R.keep("conv", R.call("AngularGrid.convert_angular_sizes_to_degrees", AngularGrid.convert_angular_sizes_to_degrees, mk(rng.integers(1, 150, 5), "sizes"), method))
-    ag = R.call("AngularGrid", AngularGrid, degree=int(rng.integers(1, 20)), method=method, cache=bool(rng.integers(0, 2)))
+    ag = R.call("AngularGrid", AngularGrid, degree=int(rng.integers(1, 20)), method=method, cache=R.pick([True, False]))
+    ag2 = R.call("AngularGrid", AngularGrid, size=int(rng.integers(6, 200)), method=method, cache=R.pick([False, True]))
+    if ag is not None and ag2 is not None:
+        R.keep("ag", [ag.degree, ag.size, ag2.degree, ag2.size, len(ag.method)])
     degs_list = mk.obj([int(v) for v in rng.integers(3, 14, n)], "degrees-list")
     degs_arr = mk(rng.integers(3, 14, n), "degrees-array")
     center = mk(rng.normal(size=3), "center")
-    at = R.call("AtomGrid", AtomGrid, rg, degs_list, center=center, rotate=int(rng.integers(0, 3)), method=method)
+    at = R.call("AtomGrid", AtomGrid, rg, degs_list, center=center, rotate=R.pick([0, 1, 17]), method=method)
     at2 = R.call("AtomGrid", AtomGrid, rg, degrees=degs_arr, center=center, method=method)
     sz = mk.obj([int(v) for v in rng.integers(6, 60, n)], "sizes-list")
     at3 = R.call("AtomGrid", AtomGrid, rg, None, sizes=sz, center=center, method=method)
@@ -496,7 +532,26 @@ def scn_atomgrid(R, rng):
     atp4 = R.call("AtomGrid.from_pruned", AtomGrid.from_pruned, rg, 1.0, r_sec_a, d_sectors=None, s_sectors=mk(np.array([6, 26, 14, 6]), "s_sectors-array"))
     preset = ["coarse", "medium", "fine", "sg_1"][int(rng.integers(0, 4))]
     atq = R.call("AtomGrid.from_preset", AtomGrid.from_preset, int([1, 6, 8][int(rng.integers(0, 3))]), preset, rg, center)
-    atq2 = R.call("AtomGrid.from_preset", AtomGrid.from_preset, 1, "coarse", center=center, rotate=1)
+    atq2 = R.call("AtomGrid.from_preset", AtomGrid.from_preset, R.pick([1, 6, 8, 17]), R.pick(["coarse", "medium", "fine", "veryfine", "ultrafine", "insane"]), center=center, rotate=R.pick([1, 0]))
+    # shell-count presets: the radial grid must have exactly the prescribed number of shells
+    from grid.basegrid import OneDGrid
+
+    sc_preset, sc_z = R.pick(["sg_0", "g1", "sg_2", "g2", "sg_3", "g3", "sg_1"]), R.pick([1, 6, 8, 19, 20])
+    if sc_preset == "sg_1":
+        nsh = 12  # sg_1 of K, Ca (Z > 18) lists shell counts too, lighter elements use radii
+        sc_z = R.pick([19, 20])
+    else:
+        nsh = 0
+    try:
+        prune = np.load(os.path.join(core.GRIDDIR, "data", "prune_grid", f"prune_grid_{sc_preset}.npz"))
+        nsh = int(np.sum(prune[f"{sc_z}_rad"]))
+    except Exception as exc:
+        raise core.MonitorError(f"cannot read preset table {sc_preset}: {exc}")
+    rr = np.sort(rng.uniform(0.02, 8.0, nsh))
+    rg_sc = OneDGrid(mk(rr, "rgrid-sc.points"), mk(np.gradient(rr) if nsh > 1 else np.ones(1), "rgrid-sc.weights"), (0, np.inf))
+    atsc = R.call(f"AtomGrid.from_preset[{sc_preset}]", AtomGrid.from_preset, sc_z, sc_preset, rg_sc, center, R.pick([0, 5]), method if method != "ahrens_beylkin" else "lebedev")
+    if atsc is not None:
+        R.keep("atsc", [atsc.size, float(np.sum(atsc.weights)), atsc.n_shells, int(atsc.l_max)])
     if atq is not None:
         R.keep("atq.wsum", float(np.sum(atq.weights)))
     for lab, a in (("at", at), ("at2", at2), ("at3", at3), ("at4", at4), ("at5", at5), ("atp", atp), ("atp2", atp2), ("atp3", atp3), ("atp4", atp4)):
@@ -533,13 +588,19 @@ def scn_atomgrid(R, rng):
     lg = R.call("AtomGrid.get_localgrid", at.get_localgrid, center, 1.0)
     if lg is not None:
         R.keep("at.local", lg.indices)
-    R.keep("at.mom", R.call("AtomGrid.moments", at.moments, 1, mk(center[None, :].copy(), "centers"), f, "pure"))
+    R.keep("at.mom", R.call("AtomGrid.moments", at.moments, R.pick([1, 2]), mk(center[None, :].copy(), "centers"), f, R.pick(["pure", "cartesian", "radial", "pure-radial"])))
+    R.keep("at.props", [at.size, at.n_shells, int(at.l_max), at.rotate, len(at.method), float(np.sum(at.basis)) if at.basis is not None else 0.0, float(at.center[0]), int(at.indices[-1]), int(np.sum(at.degrees))])
     R.call("AtomGrid.save", at.save, _tmp("atgrid.npz"))
 
 
-def _molecule(mk, rng, natom=None):
+NO_BRAGG_RADIUS = (2, 10, 18, 36, 54, 85, 86)  # elements whose tabulated Bragg-Slater radius is NaN (fallback branch of Becke)
+
+
+def _molecule(mk, rng, natom=None, pool=(1, 6, 7, 8), force=()):
     natom = natom or int(rng.integers(2, 6))
-    zs = rng.choice([1, 6, 7, 8], natom)
+    zs = rng.choice(list(pool), natom)
+    for i, z in enumerate(force):
+        zs[(i * 2 + 1) % natom] = z
     xyz = rng.normal(size=(natom, 3)) * 1.2 + np.arange(natom)[:, None] * np.array([0.9, 0.4, 0.2])
     return mk(zs.astype(int), "atnums"), mk(xyz, "atcoords")
 
@@ -551,12 +612,15 @@ def scn_molgrid(R, rng):
     from grid.molgrid import MolGrid
 
     mk = R.mk
-    atnums, atcoords = _molecule(mk, rng)
+    # every other run: a molecule with atoms that have no Bragg radius (He, Ne, Ar: fallback branch of the Becke routes)
+    nobles = R.pick([False, True])
+    atnums, atcoords = _molecule(mk, rng, pool=(1, 6, 7, 8, 2, 10, 18) if nobles else (1, 6, 7, 8), force=(R.pick([2, 10, 18]),) if nobles else ())
     natom = len(atnums)
+    hcno = set(atnums.tolist()) <= {1, 6, 7, 8}  # proatoms for Hirshfeld are shipped for H, C, N, O only
     rg = _radial(mk, rng, n=6)
-    atgrids = mk.obj([AtomGrid(rg, degrees=[int(rng.integers(3, 9))], center=atcoords[i]) for i in range(natom)], "atgrids-list")
-    radii = mk.obj({1: 0.6, 6: 1.3}, "radii-dict")
-    becke = R.call("BeckeWeights", BeckeWeights, radii, order=int(rng.integers(2, 4)))
+    atgrids = mk.obj([AtomGrid(rg, degrees=[int(rng.integers(3, 9))], center=atcoords[i], rotate=R.pick([0, 3])) for i in range(natom)], "atgrids-list")
+    radii = mk.obj(R.pick([{1: 0.6, 6: 1.3}, {2: 0.5, 10: 0.8}, {}]), "radii-dict")
+    becke = R.call("BeckeWeights", BeckeWeights, radii, order=R.pick([2, 3, 1]))
     size = int(sum(a.size for a in atgrids))
     cache = {}
 
@@ -574,7 +638,7 @@ def scn_molgrid(R, rng):
 
     aw = mk(rng.uniform(0.2, 1.0, size), "aim_weights-array")
     mgs = {}
-    for lab, w in (("becke", becke), ("hirshfeld", HirshfeldWeights()), ("array", aw), ("fn-cached", fn_cached), ("fn-fresh", fn_fresh)):
+    for lab, w in (("becke", becke), ("hirshfeld", HirshfeldWeights() if hcno else None), ("array", aw), ("fn-cached", fn_cached), ("fn-fresh", fn_fresh)):
         if w is None:
             continue
         for store in (False, True):
@@ -607,7 +671,8 @@ def scn_molgrid(R, rng):
         R.keep("mg.itp", R.call("MolGrid.interpolate()", itp, P))
         R.keep("mg.itp1", R.call("MolGrid.interpolate()", itp, P, 1))
     lg = R.call("MolGrid.get_localgrid", mg.get_localgrid, atcoords[0], 1.5)
-    R.keep("mg.mom", R.call("MolGrid.moments", mg.moments, 1, atcoords, f, "cartesian"))
+    R.keep("mg.mom", R.call("MolGrid.moments", mg.moments, R.pick([1, 2]), atcoords, f, R.pick(["cartesian", "pure", "radial", "pure-radial"])))
+    R.keep("mg.props", [mg.size, int(mg.indices[-1]), float(np.sum(mg.aim_weights)), float(np.sum(mg.atweights)), float(mg.atcoords[0, 0]), 0 if mg.atgrids is None else len(mg.atgrids)])
     R.call("MolGrid.save", mg.save, _tmp("molgrid.npz"))
     from grid.utils import dipole_moment_of_molecule
 
@@ -621,7 +686,14 @@ def scn_molgrid(R, rng):
     mgp = R.call("MolGrid.from_preset", MolGrid.from_preset, atnums, atcoords, pd, rgd, rotate=0)
     if mgp is not None:
         R.keep("mgp.size", mgp.size)
-    mgs_ = R.call("MolGrid.from_size", MolGrid.from_size, atnums, atcoords, 14, rg, aim_weights=HirshfeldWeights(), rotate=0, store=True)
+    mgs_ = R.call("MolGrid.from_size", MolGrid.from_size, atnums, atcoords, R.pick([14, 6, 26]), rg, aim_weights=HirshfeldWeights() if hcno else becke, rotate=R.pick([0, 37]), store=R.pick([True, False]))
+    # defaults: one OneDGrid for all atoms / default radial grid per element, default (Becke) weights, a single preset name
+    mgd = R.call("MolGrid.from_size", MolGrid.from_size, atnums, atcoords, 6, None if R.pick([True, False]) else rg)
+    mgp1 = R.call("MolGrid.from_preset", MolGrid.from_preset, atnums, atcoords, R.pick(["coarse", "medium"]), rg, store=R.pick([False, True]))
+    mgp0 = R.call("MolGrid.from_preset", MolGrid.from_preset, atnums[:2], atcoords[:2], "coarse")
+    for lab, m_ in (("mgd", mgd), ("mgp1", mgp1), ("mgp0", mgp0)):
+        if m_ is not None:
+            R.keep(lab, [m_.size, float(np.sum(m_.weights))])
     if mgs_ is not None:
         R.keep("from_size", float(np.sum(mgs_.weights)))
     radius = mk.obj([1.0 + 0.1 * i for i in range(natom)], "radius-list")
@@ -633,6 +705,10 @@ def scn_molgrid(R, rng):
     s_sec = mk.obj([[6, 14, 6, 6] for _ in range(natom)], "s_sectors-lol")
     R.call("MolGrid.from_pruned", MolGrid.from_pruned, atnums, atcoords, 1.2, r_sec, s_sectors=s_sec, rgrid=rgl, rotate=3)
     R.call("MolGrid.from_pruned", MolGrid.from_pruned, atnums, atcoords, 1.2, r_sec, 5, rgrid=rgd)
+    R.call("MolGrid.from_pruned", MolGrid.from_pruned, atnums, atcoords, np.float64(1.1), r_sec, s_sectors=R.pick([6, 14]), rgrid=rg, store=True)
+    mgq0 = R.call("MolGrid.from_pruned", MolGrid.from_pruned, atnums[:2], atcoords[:2], 1.0, r_sec[:2], d_sec[:2])  # default radial grids
+    if mgq0 is not None:
+        R.keep("from_pruned-default-rgrid", mgq0.size)
 
 
 def scn_becke_hirshfeld(R, rng):
@@ -641,38 +717,50 @@ def scn_becke_hirshfeld(R, rng):
     from grid.utils import get_cov_radii
 
     mk = R.mk
-    atnums, atcoords = _molecule(mk, rng, natom=int(rng.integers(2, 9)))
-    natom = len(atnums)
-    per = int(rng.integers(3, 40))
-    pts = mk(np.concatenate([atcoords[i] + rng.normal(size=(per, 3)) * 0.7 for i in range(natom)]), "points")
-    if mk.alias and natom >= 2:
-        pts = mk.same(atcoords)  # the nuclei themselves as evaluation points (coincident point/nucleus), same object twice
-        per = 1
-    n = len(pts)
-    ind = mk(np.arange(0, n + 1, per), "indices")
-    radii = mk.obj({1: 0.55, 7: 1.2}, "radii-dict")
-    bw = R.call("BeckeWeights", BeckeWeights, radii, 3)
-    bw2 = R.call("BeckeWeights", BeckeWeights, radii)  # the same dict again
-    if bw is None:
-        return
-    R.keep("gw", R.call("BeckeWeights.generate_weights", bw.generate_weights, pts, atcoords, atnums, pt_ind=ind))
-    R.keep("gw-list", R.call("BeckeWeights.generate_weights", bw.generate_weights, pts, atcoords, atnums, pt_ind=mk.obj([int(v) for v in ind], "pt_ind-list")))
-    sel = mk.obj([natom - 1], "select-list")
-    R.keep("gw-sel", R.call("BeckeWeights.generate_weights", bw.generate_weights, pts, atcoords, atnums, select=sel))
-    order = [int(v) for v in rng.permutation(natom)]
-    sel2 = mk.obj(order, "select-perm")
-    R.keep("gw-sel2", R.call("BeckeWeights.generate_weights", bw.generate_weights, pts, atcoords, atnums, select=sel2, pt_ind=ind))
-    R.keep("cw", R.call("BeckeWeights.compute_weights", bw.compute_weights, pts, atcoords, atnums, pt_ind=ind))
-    R.keep("cw-sel", R.call("BeckeWeights.compute_weights", bw.compute_weights, pts, atcoords, atnums, select=sel2, pt_ind=mk.obj([int(v) for v in ind], "pt_ind-list2")))
-    R.keep("cw-int", R.call("BeckeWeights.compute_weights", bw.compute_weights, pts, atcoords, atnums, select=0))
-    R.keep("caw", R.call("BeckeWeights.compute_atom_weight", bw.compute_atom_weight, pts, atcoords, atnums, 1, 0.4))
-    R.keep("call", R.call("BeckeWeights.__call__", bw, pts, atcoords, atnums, ind))
-    hw = HirshfeldWeights()
-    R.keep("hcall", R.call("HirshfeldWeights.__call__", hw, pts, atcoords, atnums, ind))
-    R.keep("proatom", R.call("HirshfeldWeights.generate_proatom", HirshfeldWeights.generate_proatom, pts, mk.same(atcoords[0]) if mk.alias else mk(rng.normal(size=3), "coord"), int(atnums[0])))
-    R.keep("covr", R.call("get_cov_radii", get_cov_radii, atnums, "bragg"))
-    R.keep("covr2", R.call("get_cov_radii", get_cov_radii, mk.obj([1, 6, 8], "atnums-list"), "cambridge"))
-    R.keep("covr3", R.call("get_cov_radii", get_cov_radii, atnums, "alvarez"))
+    # two molecules per run: ordinary elements, and one with elements that have no tabulated Bragg radius
+    # (noble gases, At, Rn: documented fallback to the radius of the previous element) - every route with both
+    special = [R.pick(NO_BRAGG_RADIUS), R.pick(NO_BRAGG_RADIUS)]
+    for tag, pool, force in (("", (1, 6, 7, 8), ()), ("nobragg-", (1, 3, 8, 9, 17, 35) + NO_BRAGG_RADIUS, special)):
+        atnums, atcoords = _molecule(mk, rng, natom=int(rng.integers(2, 9)), pool=pool, force=force)
+        natom = len(atnums)
+        per = int(rng.integers(3, 40))
+        pts = mk(np.concatenate([atcoords[i] + rng.normal(size=(per, 3)) * 0.7 for i in range(natom)]), "points")
+        if mk.alias and natom >= 2:
+            pts = mk.same(atcoords)  # the nuclei themselves as evaluation points (coincident point/nucleus), same object twice
+            per = 1
+        n = len(pts)
+        ind = mk(np.arange(0, n + 1, per), "indices")
+        radii = mk.obj(R.pick([{1: 0.55, 7: 1.2}, {2: 0.5, 10: 0.7, 86: 2.0}, {}, {18: 1.0, 1: 0.6}]), "radii-dict")
+        bw = R.call("BeckeWeights", BeckeWeights, radii, R.pick([1, 2, 3, 4]))
+        bw2 = R.call("BeckeWeights", BeckeWeights, radii)  # the same dict again
+        bw3 = R.call("BeckeWeights", BeckeWeights, None, order=R.pick([3, 2]))
+        for lab, b in ((tag + "custom-", bw), (tag + "default-", bw3)):
+            if b is None:
+                continue
+            R.keep(lab + "gw", R.call("BeckeWeights.generate_weights", b.generate_weights, pts, atcoords, atnums, pt_ind=ind))
+            R.keep(lab + "gw-list", R.call("BeckeWeights.generate_weights", b.generate_weights, pts, atcoords, atnums, pt_ind=mk.obj([int(v) for v in ind], "pt_ind-list")))
+            sel = mk.obj([natom - 1], "select-list")
+            R.keep(lab + "gw-sel", R.call("BeckeWeights.generate_weights", b.generate_weights, pts, atcoords, atnums, select=sel))
+            R.keep(lab + "gw-int", R.call("BeckeWeights.generate_weights", b.generate_weights, pts, atcoords, atnums, select=R.pick([0, np.int64(1)])))
+            order = [int(v) for v in rng.permutation(natom)]
+            sel2 = mk.obj(order, "select-perm")
+            R.keep(lab + "gw-sel2", R.call("BeckeWeights.generate_weights", b.generate_weights, pts, atcoords, atnums, select=sel2, pt_ind=ind))
+            R.keep(lab + "cw", R.call("BeckeWeights.compute_weights", b.compute_weights, pts, atcoords, atnums, pt_ind=ind))
+            R.keep(lab + "cw-none", R.call("BeckeWeights.compute_weights", b.compute_weights, pts, atcoords, atnums, select=natom - 1))
+            R.keep(lab + "cw-sel", R.call("BeckeWeights.compute_weights", b.compute_weights, pts, atcoords, atnums, select=sel2, pt_ind=mk.obj([int(v) for v in ind], "pt_ind-list2")))
+            R.keep(lab + "cw-selarr", R.call("BeckeWeights.compute_weights", b.compute_weights, pts, atcoords, atnums, select=mk(np.array(order), "select-array"), pt_ind=ind))
+            R.keep(lab + "cw-int", R.call("BeckeWeights.compute_weights", b.compute_weights, pts, atcoords, atnums, select=0))
+            for a_idx in sorted({0, natom - 1, int(rng.integers(0, natom))}):
+                R.keep(lab + f"caw{a_idx}", R.call("BeckeWeights.compute_atom_weight", b.compute_atom_weight, pts, atcoords, atnums, a_idx, R.pick([0.45, 0.4, 0.3])))
+            R.keep(lab + "call", R.call("BeckeWeights.__call__", b, pts, atcoords, atnums, ind))
+        if set(atnums.tolist()) <= {1, 6, 7, 8}:  # proatom densities are shipped for H, C, N, O only
+            hw = HirshfeldWeights()
+            R.keep(tag + "hcall", R.call("HirshfeldWeights.__call__", hw, pts, atcoords, atnums, ind))
+            R.keep(tag + "proatom", R.call("HirshfeldWeights.generate_proatom", HirshfeldWeights.generate_proatom, pts, mk.same(atcoords[0]) if mk.alias else mk(rng.normal(size=3), "coord"), int(atnums[0])))
+        for ctype in ("bragg", "cambridge", "alvarez"):
+            R.keep(tag + "covr-" + ctype, R.call("get_cov_radii", get_cov_radii, atnums, ctype))
+        R.keep(tag + "covr-list", R.call("get_cov_radii", get_cov_radii, mk.obj([1, 6, 8, 2, 86], "atnums-list"), R.pick(["cambridge", "bragg", "alvarez"])))
+        R.keep(tag + "covr-scalar", R.call("get_cov_radii", get_cov_radii, int(atnums[0]), "bragg"))
 
 
 def scn_cubic(R, rng):
@@ -681,9 +769,13 @@ def scn_cubic(R, rng):
 
     mk = R.mk
     shape = mk(rng.integers(7, 10, 3), "shape")
-    axes = mk(np.diag(rng.uniform(0.2, 0.5, 3)), "axes")
+    sign = np.ones(3)
+    neg = R.pick([None, 0, 1, 2])  # one axis running in the negative direction
+    if neg is not None:
+        sign[neg] = -1.0
+    axes = mk(np.diag(rng.uniform(0.2, 0.5, 3) * sign), "axes")
     origin = mk.same(axes[0]) if mk.alias else mk(rng.normal(size=3), "origin")
-    wt = ["Trapezoid", "Rectangle", "Fourier1", "Alternative"][int(rng.integers(0, 4))]
+    wt = R.pick(["Trapezoid", "Rectangle", "Fourier1", "Alternative", "Fourier2"])
     ug = R.call("UniformGrid", UniformGrid, origin, axes, shape, wt)
     if ug is not None:
         n = ug.size
@@ -695,8 +787,9 @@ def scn_cubic(R, rng):
         for method in ("cubic", "linear", "nearest"):
             R.keep("ug.itp-" + method, R.call("UniformGrid.interpolate", ug.interpolate, P, vals, method=method))
         R.keep("ug.itp-log", R.call("UniformGrid.interpolate", ug.interpolate, P, vals, use_log=True))
-        R.keep("ug.itp-dx", R.call("UniformGrid.interpolate", ug.interpolate, P, vals, nu_x=1))
-        R.keep("ug.itp-logdz", R.call("UniformGrid.interpolate", ug.interpolate, P[:2], vals, use_log=True, nu_z=1))
+        R.keep("ug.itp-d", R.call("UniformGrid.interpolate", ug.interpolate, P, vals, **R.pick([{"nu_x": 1}, {"nu_y": 1}, {"nu_z": 2}, {"nu_x": 1, "nu_y": 1}, {"nu_y": 2, "nu_z": 1}])))
+        R.keep("ug.itp-logd", R.call("UniformGrid.interpolate", ug.interpolate, P[:2], vals, use_log=True, **R.pick([{"nu_z": 1}, {"nu_x": 1}, {"nu_y": 1}, {"nu_x": 2}, {"nu_y": 2}])))
+        R.keep("ug.props", [float(ug.origin[0]), float(ug.axes[1, 1]), int(ug.shape[2]), ug.ndim, ug.size])
         R.keep("ug.closest", R.call("UniformGrid.closest_point", ug.closest_point, P[0], "closest"))
         R.keep("ug.closest-o", R.call("UniformGrid.closest_point", ug.closest_point, mk(inner[1], "point"), "origin"))
         R.keep("ug.c2i", R.call("UniformGrid.coordinates_to_index", ug.coordinates_to_index, mk(np.array([1, 2, 3]), "ijk")))
@@ -708,9 +801,26 @@ def scn_cubic(R, rng):
         fn = _tmp(f"c20_{R.mk.mode}.cube")
         R.call("UniformGrid.generate_cube", ug.generate_cube, fn, vals, atcoords, atnums, pseudo)
         R.call("UniformGrid.generate_cube", ug.generate_cube, fn, vals, atcoords, atnums)
-        rd = R.call("UniformGrid.from_cube", UniformGrid.from_cube, fn, "Rectangle", True)
+        rd = R.call("UniformGrid.from_cube", UniformGrid.from_cube, fn, R.pick(["Rectangle", "Trapezoid", "Alternative"]), True)
         if rd is not None:
             R.keep("cube.data", rd[1]["data"])
+        ug_file = R.call("UniformGrid.from_cube", UniformGrid.from_cube, fn)
+        # the same file with the Gaussian convention for angstrom units (negative first count) and without pseudo-numbers
+        R.call("UniformGrid.generate_cube", ug.generate_cube, fn, vals, atcoords, atnums, mk(np.zeros(len(atnums)), "pseudo_numbers-zero"))
+        with open(fn) as fh:
+            lines = fh.readlines()
+        cnt, rest = lines[3].split(None, 1)
+        lines[3] = f"{-int(cnt):5d} {rest}"
+        fn2 = _tmp(f"c20_{R.mk.mode}_angstrom.cube")
+        with open(fn2, "w") as fh:
+            fh.writelines(lines)
+        import contextlib
+        import io
+
+        with contextlib.redirect_stdout(io.StringIO()):
+            rd2 = R.call("UniformGrid.from_cube", UniformGrid.from_cube, fn2, "Trapezoid", R.pick([True, False]))
+        if isinstance(rd2, tuple):
+            R.keep("cube2.nums", rd2[1]["atcorenums"])
         R.call("UniformGrid.save", ug.save, _tmp("ugrid.npz"))
         lg = R.call("UniformGrid.get_localgrid", ug.get_localgrid, P[0], 0.6)
         R.keep("ug.mom", R.call("UniformGrid.moments", ug.moments, 1, P[:2], vals, "radial"))
@@ -722,10 +832,13 @@ def scn_cubic(R, rng):
             R.keep(f"from_molecule-{rot}", um.points[[0, -1]])
     # 2-D uniform grid
     sh2, ax2, or2 = mk(np.array([5, 6]), "shape2"), mk(np.array([[0.3, 0.05], [0.0, 0.4]]), "axes2"), mk(np.array([-1.0, 0.5]), "origin2")
-    u2 = R.call("UniformGrid", UniformGrid, or2, ax2, sh2, "Rectangle")
+    u2 = R.call("UniformGrid", UniformGrid, or2, ax2, sh2, R.pick(["Rectangle", "Fourier1", "Trapezoid", "Alternative"]))
     if u2 is not None:
         R.keep("u2.w", u2.weights)
         R.keep("u2.i2c", R.call("UniformGrid.index_to_coordinates", u2.index_to_coordinates, 7))
+        R.keep("u2.c2i", R.call("UniformGrid.coordinates_to_index", u2.coordinates_to_index, mk(np.array([2, 3]), "ij")))
+        R.keep("u2.int", R.call("UniformGrid.integrate", u2.integrate, mk(rng.normal(size=30), "values2d")))
+        R.keep("u2.lg", getattr(R.call("UniformGrid.get_localgrid", u2.get_localgrid, or2, 0.7), "indices", None))
     # tensor grids from caller arrays
     ods = []
     for i, m in enumerate(rng.integers(7, 9, 3)):
@@ -743,6 +856,10 @@ def scn_cubic(R, rng):
     t2 = R.call("Tensor1DGrids", Tensor1DGrids, ods[0], ods[0] if mk.alias else ods[1])
     if t2 is not None:
         R.keep("t2.w", t2.weights)
+        axs = R.call("Tensor1DGrids.get_points_along_axes", t2.get_points_along_axes)
+        if axs is not None:
+            R.keep("t2.axes", np.concatenate(axs))
+        R.keep("t2.props", [float(v) for v in t2.origin] + list(t2.shape))
 
 
 def scn_periodic(R, rng):
@@ -776,6 +893,14 @@ def scn_periodic(R, rng):
                 s = R.call("PeriodicGrid.__getitem__", pg.__getitem__, idx)
                 if s is not None:
                     R.keep(lab + ".item", s.points)
+            R.keep(lab + ".props", np.concatenate([np.ravel(pg.realvecs), np.ravel(pg.recivecs), np.ravel(pg.spacings), np.ravel(pg.frac_intvls)]))
+            if R.pick([False, True]):  # documented: the points may be reassigned (same shape)
+                newp = mk(np.array(pg.points) * 1.0 + (0.05 if dim > 1 or nvec else 0.0), "new-points")
+                with R.ctx.guard("no-exception", f"PeriodicGrid.points=[{mk.mode}]"):
+                    pg.points = newp
+                lg = R.call("PeriodicGrid.get_localgrid", pg.get_localgrid, c, 0.9)
+                if lg is not None:
+                    R.keep(lab + ".lw-after-set", np.sort(lg.weights))
             R.keep(lab + ".int", R.call("PeriodicGrid.integrate", pg.integrate, mk.same(w) if mk.alias else mk(rng.normal(size=n), "f")))
 
 
@@ -810,6 +935,7 @@ def scn_ngrid(R, rng):
     md2 = R.call("MultiDomainGrid", MultiDomainGrid, mk.obj([g1], "grid_list1"), num_domains=2)
     md1 = R.call("MultiDomainGrid", MultiDomainGrid, [g2], num_domains=1)
     md3 = R.call("MultiDomainGrid", MultiDomainGrid, [g1, g3])
+    R.keep("md.sizes", [int(m.size) for m in (md, md2, md1, md3) if m is not None] + [int(m.num_domains) for m in (md, md2, md1, md3) if m is not None])
     for lab, fn in integrands.items():
         for m, ml in ((md, "2grids"), (md2, "same-grid-twice")):
             if m is None:
@@ -1134,6 +1260,88 @@ def run_ode(ctx, p):
     ctx.check("result-independent-of-argument-pattern", subject, m, TOL_SOLVE, sig="callback-aliasing-changes-solution", detail={"rel_diff": m})
 
 
+DATA_KINDS = ("list", "tuple", "float64-array", "int-array", "float32-array", "float64-view")
+
+
+def _as_kind(values, kind, readonly, nested=False):
+    """Put integer-valued numbers into the container type `kind` (the mathematics is the same for every kind)."""
+    if kind == "list":
+        return [list(v) for v in values] if nested else [float(v) for v in values]
+    if kind == "tuple":
+        return tuple(tuple(v) for v in values) if nested else tuple(float(v) for v in values)
+    if nested:  # boundary conditions [side, derivative, value]: rows are indexed with the first two entries -> integer arrays only
+        rows = [np.array(v, dtype=int) for v in values]
+        out = rows if kind in ("float64-array", "float32-array") else np.array(values, dtype=int)  # list of int rows / one (K,3) int array
+        if kind == "float64-view":
+            out = np.array(values, dtype=int)[:, ::1][::1]
+        for a in rows if isinstance(out, list) else [out]:
+            if readonly:
+                a.setflags(write=False)
+        return out
+    if kind == "float64-view":
+        buf = np.zeros(2 * len(values) + 1)
+        a = buf[1::2]
+        a[...] = values
+    else:
+        a = np.array(values, dtype={"float64-array": np.float64, "int-array": np.int64, "float32-array": np.float32}[kind])
+    if readonly:
+        a.setflags(write=False)
+    return a
+
+
+def run_ode_data(ctx, p):
+    """Initial values / boundary data / interval / mesh / initial guess as list, tuple, float64, int, float32 array and
+    strided view: bitwise unchanged after the call (also when write-protected: LAPACK and friends do not honour the flag),
+    same solution for every container type."""
+    from grid.ode import solve_ode_bvp, solve_ode_ivp
+
+    solver, order, ro = p["solver"], p["order"], p["readonly"]
+    tf, (lo, hi) = _ode_tf(p["tf"])
+    rng = ctx.rng
+    coeffs_num = [0.7, -0.4, 0.3][:order] + [1.0]
+    n = int(rng.integers(10, 24))
+    y0_vals = [1, 2, -1][:order]
+    bd_vals = [[0, 0, 1], [1, 0, 2], [0, 1, 1]][:order]
+    ev = np.linspace(lo, hi, 7)[1:-1]
+    ref = None
+    for kind in DATA_KINDS:
+        subject = f"solve_ode_{solver}[tf={p['tf']},order={order},data={kind}{',read-only' if ro else ''}]"
+        np.random.seed(99)
+        cbf = _CB(ro)
+        fx = cbf.make("fresh-x", 1.0)
+        coeffs = _as_kind(coeffs_num, kind, ro) if kind != "int-array" else list(coeffs_num)
+        if solver == "bvp":
+            x = _as_kind(np.linspace(lo, hi, n), "float64-view" if kind == "float64-view" else "float64-array", ro)
+            bd = _as_kind(bd_vals, kind, ro, nested=True)
+            guess = None if kind == "tuple" else _as_kind(np.zeros(order * n), "float64-array", False).reshape(order, n)
+            if guess is not None and ro:
+                guess.setflags(write=False)
+            data = {"x": x, "coeffs": coeffs, "bd_cond": bd, "initial_guess_y": guess}
+            call = lambda: solve_ode_bvp(x, fx, coeffs, bd, tf, 1e-5, 20000, guess, False)  # noqa: E731
+        else:
+            span = _as_kind([lo, hi], kind if kind in ("list", "tuple") else "float64-array", ro)
+            y0 = _as_kind(y0_vals, kind, ro)
+            data = {"x_span": span, "coeffs": coeffs, "y0": y0}
+            call = lambda: solve_ode_ivp(span, fx, coeffs, y0, tf, "DOP853", False, 1e-8, 1e-8)  # noqa: E731
+        pristine = _deep(data)
+        val = None
+        with ctx.guard("no-exception", subject):
+            try:
+                sol = call()
+                val = np.asarray(sol(ev), dtype=float)
+            except _RunAway:
+                ctx.discard("runaway solve: callback call budget exceeded")
+        changed = [k for k in data if not _same(data[k], pristine[k])]
+        ctx.check("caller-data-unchanged-after-sequence", f"solve_ode_{solver}[order={order},data={kind}]", not changed, sig="changed:" + ",".join(changed), detail={"changed": changed, "tf": p["tf"], "read_only": ro, "before": {k: pristine[k] for k in changed}, "after": {k: data[k] for k in changed}})
+        if val is None:
+            continue
+        if ref is None:
+            ref = val
+        else:
+            m = _reldiff(ref, val)
+            ctx.check("result-independent-of-argument-pattern", subject, m, TOL_SOLVE if kind != "float32-array" else 1e-4, sig="container-type-changes-solution", detail={"rel_diff": m})
+
+
 # --- Poisson --------------------------------------------------------------------------------
 def run_poisson(ctx, p):
     from grid.atomgrid import AtomGrid
@@ -1147,13 +1355,15 @@ def run_poisson(ctx, p):
     kind, mode = p["kind"], p["mode"]
     seed = int(ctx.rng.integers(0, 2**31))
 
+    salt = int(p.get("k", 0)) * len(MODES) + MODES.index(mode)
+
     def once(md, share=True):
         rng = np.random.default_rng(seed)
         mk = Mk(md, share)
-        R = Run(ctx, mk, "poisson-" + kind)
+        R = Run(ctx, mk, "poisson-" + kind, salt)
         np.random.seed(99)
         alpha = float(rng.uniform(0.6, 1.5))
-        deg = int(rng.choice([4, 6, 8]))
+        deg = R.pick([4, 6, 8])
         if kind == "ivp":
             tf0 = LinearFiniteRTransform(1e-3, 40.0)
             rg = tf0.transform_1d_grid(Trapezoidal(int(rng.integers(40, 56))))
@@ -1173,8 +1383,8 @@ def run_poisson(ctx, p):
         fv = mk(dens, "func_vals")
         P = mk.same(pts[:5]) if mk.alias else mk(rng.normal(size=(5, 3)), "eval-points")
         if kind in ("bvp", "bvp-mol"):
-            opts = mk.obj({"tol": 1e-4} if rng.random() < 0.7 else {}, "ode_params")
-            pot = R.call("solve_poisson_bvp", solve_poisson_bvp, grid, fv, tf, None if rng.random() < 0.5 else 1.0, True, 10.0, opts)
+            opts = mk.obj(R.pick([{"tol": 1e-4}, {}, {"tol": 1e-3, "max_nodes": 30000}, {"no_derivatives": True, "tol": 1e-4}]), "ode_params")
+            pot = R.call("solve_poisson_bvp", solve_poisson_bvp, grid, fv, tf, R.pick([None, 1.0]), True, R.pick([10.0, 50.0]), opts)
             if pot is not None:
                 R.keep("pot", R.call("solve_poisson_bvp()", pot, P))
             if kind == "bvp":  # the same dict again (option dict reused across calls), keyword style
@@ -1194,7 +1404,7 @@ def run_poisson(ctx, p):
             atn, atc = mk(np.array([1]), "atnums"), mk(np.array([center]), "atcoords")
             basis = mk(np.geomspace(0.1, 50.0, 6), "alphas_basis")
             kw = mk.obj({"remove_large_pts": 10.0, "ode_params": opts}, "bvp_kwargs")
-            pot = R.call("solve_poisson_robust", solve_poisson_robust, grid, fv, tf, atn, atc, kind == "robust-split2", basis if rng.random() < 0.7 else None, **kw)
+            pot = R.call("solve_poisson_robust", solve_poisson_robust, grid, fv, tf, atn, atc, kind == "robust-split2", R.pick([basis, None]), **kw)
             if pot is not None:
                 R.keep("pot", R.call("solve_poisson_robust()", pot, P))
                 R.keep("pot-list", R.call("solve_poisson_robust()", pot, mk.obj([[0.0, 0.0, 1.0], [0.5, 0.0, 0.0]], "points-list")))
@@ -1325,9 +1535,11 @@ def run_scenario(ctx, p):
     seed = [ctx.seed, int(ctx.rng.integers(0, 2**31))]
     fn = _SCN_FN[scn]
 
+    salt = int(p.get("k", 0)) * len(MODES) + MODES.index(mode)
+
     def once(md, share=True):
         mk = Mk(md, share)
-        R = Run(ctx, mk, scn)
+        R = Run(ctx, mk, scn, salt)
         np.random.seed(777)
         fn(R, np.random.default_rng(seed))
         mk.check(ctx, f"{scn}[{md}]")
@@ -1344,6 +1556,8 @@ def run_case(ctx, family, params):
         run_scenario(ctx, params)
     elif family == "ode-callbacks":
         run_ode(ctx, params)
+    elif family == "ode-data":
+        run_ode_data(ctx, params)
     elif family == "poisson":
         run_poisson(ctx, params)
     elif family == "repo-tests":
